@@ -440,10 +440,17 @@ func c18Chains(c *Ctx, fns []*ssa.Function) {
 		}
 	}
 	writer := p.moduleReach(roots, nil)
+	c18SectorIndexes(c, fns, "R18c", writer)
+	c18ChainEnds(c, fns)
+}
+
+// c18SectorIndexes: every index of a table by a sector id, in the functions of scope (C18: the
+// writing side; C11 R11r: all of lib/comdoc, the reading side included).
+func c18SectorIndexes(c *Ctx, fns []*ssa.Function, rule string, scope map[*ssa.Function]bool) {
+	p := c.P
 	te := &taintEngine{p: p}
-	const eoc = -2
 	for _, fn := range fns {
-		if !writer[fn] {
+		if !scope[fn] {
 			continue
 		}
 		nIdx := 0
@@ -536,15 +543,20 @@ func c18Chains(c *Ctx, fns []*ssa.Function) {
 				}
 				switch verdict {
 				case "fail":
-					c.Fail("R18c", key, pos, detail, path...)
+					c.Fail(rule, key, pos, detail, path...)
 				case "exempt":
-					c.PassTrivial("R18c", key, pos, "exception: "+detail)
+					c.PassTrivial(rule, key, pos, "exception: "+detail)
 				default:
-					c.Pass("R18c", key, pos, "sector id checked or produced by the allocator")
+					c.Pass(rule, key, pos, "sector id checked or produced by the allocator")
 				}
 			}
 		}
 	}
+}
+
+func c18ChainEnds(c *Ctx, fns []*ssa.Function) {
+	p := c.P
+	const eoc = -2
 	// chain builders end their chain
 	for _, spec := range []string{"lib/comdoc.(*ComDoc).writeShortSAT", "lib/comdoc.(*ComDoc).writeDirStream", "lib/comdoc.(*ComDoc).addStream", "lib/comdoc.(*ComDoc).writeShortSector"} {
 		fn := p.Func(spec)
